@@ -138,6 +138,92 @@ class Gen:
         return 'maildir "~/md" {\n%s}\n' % body
 
 
+def _body(ctype, kind):
+    return {'err': 'ERROR', 'yes': 'MATCH', 'no': 'NOMATCH'}[kind]
+
+
+def _text_and_body(ctype, kind):
+    return _body(ctype, kind) if b'text' in ctype else 'NOMATCH'         # and: the body is not looked at when the header does not match
+
+
+def _body_or_html(ctype, kind):
+    b = _body(ctype, kind)
+    return b if b != 'NOMATCH' else ('MATCH' if b'html' in ctype else 'NOMATCH')
+
+
+def _html_or_body(ctype, kind):
+    return 'MATCH' if b'html' in ctype else _body(ctype, kind)           # or: the body is not looked at when the header matches
+
+
+ATT_FORMS = [
+    # (rule text, patterns in textual order, 'block' | 'cond' | 'negcond', condition on one part, a later rule matches everything)
+    ('\tmatch all attachment { match body /needle/ exec "true" } move "~/dst/a"\n', [('needle', '')], 'block', _body, False),
+    ('\tmatch all attachment { match header "Content-Type" /text/ and body /needle/ exec stdin "true" }\n\tmatch all label "l1"\n',
+     [('text', ''), ('needle', '')], 'block', _text_and_body, True),
+    ('\tmatch all attachment { match body /needle/ or header "Content-Type" /html/ exec "true" } label "l2"\n', [('needle', ''), ('html', '')],
+     'block', _body_or_html, False),
+    ('\tmatch attachment body /needle/ move "~/dst/a"\n\tmatch all label "l1"\n', [('needle', '')], 'cond', _body, True),
+    ('\tmatch attachment ( header "Content-Type" /html/ or body /needle/ ) move "~/dst/a"\n', [('html', ''), ('needle', '')], 'cond', _html_or_body, False),
+    ('\tmatch ! attachment body /needle/ label "l3"\n\tmatch all move "~/dst/b"\n', [('needle', '')], 'negcond', _body, True),
+    ('\tmatch all attachment { match body /needle/ exec "true" } pass\n\tmatch all move "~/dst/c"\n', [('needle', '')], 'block', _body, True),
+]
+
+
+def attachment_expectation(form, parts):
+    """Documented outcome (result, number of exec actions or None) of one ATT_FORMS configuration on parts [(content type, kind)]:
+    an attachment { } block is evaluated for EVERY part - an error in any part is an error of the evaluation, it matches iff some part
+    matched and selects its exec once per matching part; an attachment condition holds iff some part satisfies it - the parts are tried
+    in order and the first match or error decides."""
+    rule, pats, shape, fn, later = form
+    vals = [fn(ct, k) for ct, k in parts]
+    if shape == 'block':
+        res = 'ERROR' if 'ERROR' in vals else ('MATCH' if 'MATCH' in vals else 'NOMATCH')
+        nexec = vals.count('MATCH') if res == 'MATCH' else 0
+    else:
+        res = next((v for v in vals if v != 'NOMATCH'), 'NOMATCH')
+        nexec = 0
+        if shape == 'negcond' and res != 'ERROR':
+            res = 'MATCH' if res == 'NOMATCH' else 'NOMATCH'
+    if res == 'ERROR':
+        return 'ERROR', None
+    if res == 'NOMATCH' and later:
+        return 'MATCH', 0
+    return res, (nexec if res == 'MATCH' else None)
+
+
+def attachment_error_cases(rng, n):
+    """n x (config, patterns, message, part kinds, documented (result, number of exec actions)): attachment { ... } action blocks and
+    attachment conditions over multipart messages in which ONE part cannot be evaluated (undecodable base64 body), placed before,
+    between or after parts that match / do not match - the error of one part must not be forgotten because a later part matches, nor
+    be raised when an earlier part already decided."""
+    import base64
+    out = []
+    for _ in range(n):
+        nparts = rng.randrange(2, 5)
+        bad = rng.choice([0, 0, rng.randrange(nparts)])
+        parts, kinds, ctypes = [], [], []
+        for i in range(nparts):
+            k = 'err' if i == bad else rng.choice(['yes', 'yes', 'no'])
+            ctype = rng.choice([b'text/plain', b'text/html', b'application/pdf'])
+            ctypes.append(ctype)
+            if k == 'err':
+                p = b'Content-Type: ' + ctype + b'\nContent-Transfer-Encoding: base64\n\n' + rng.choice([b'***', b'%%%not-base64%%%', b'!!!! no !!!!']) + b'\n'
+            elif k == 'yes':
+                body = b'the needle %d' % i
+                if rng.random() < 0.4:
+                    p = b'Content-Type: ' + ctype + b'\nContent-Transfer-Encoding: base64\n\n' + base64.b64encode(body) + b'\n'
+                else:
+                    p = b'Content-Type: ' + ctype + b'\n\n' + body + b'\n'
+            else:
+                p = b'Content-Type: ' + ctype + b'\n\nnothing here\n'
+            parts.append(p)
+            kinds.append(k)
+        msg = b'To: a@b\nSubject: parts\nContent-Type: multipart/mixed; boundary="b"\n\n' + b''.join(b'--b\n' + p for p in parts) + b'--b--\n'
+        form = rng.choice(ATT_FORMS)
+        out.append(('maildir "~/md" {\n%s}\n' % form[0], list(form[1]), msg, kinds, attachment_expectation(form, list(zip(ctypes, kinds)))))
+    return out
+
+
 def message(rng, truth, mime=False, date=None):
     """A message whose headers X-i carry the valuation; optional MIME parts and Date."""
     hs = [b'X-%d: %d' % (i, 1 if truth[i] else 0) for i in range(len(truth))]
